@@ -74,6 +74,9 @@ func TasksToMessages(msgs []SigningTask) ([]MessageToSign, error) {
 
 func ReconstructBakedMessage(id int) (MessageToSign, error) {
 	validatorsIDS := strings.Split(wc_rotation.ValidatorsIndexes, "\n")
+	if id < 0 {
+		return MessageToSign{}, fmt.Errorf("index validator cannot be negative")
+	}
 	if id >= len(validatorsIDS) {
 		return MessageToSign{}, fmt.Errorf("index validator is out off the validator's list")
 	}
